@@ -254,4 +254,39 @@ theorem level_arith (sub? : Bool) (m x y : ℝ) :
   have e2 : y * m * 10 / 10 = y * m := by ring
   rw [e1, e2, mul_div_mul_left _ _ (by norm_num : (10 : ℝ) ≠ 0)]
 
+/-! ## unit environments -/
+
+theorem close_reverse (types : List String) (rec : List String) (h : rec.Nodup) :
+    envClose (rec.reverse ++ types) rec = types := by
+  induction rec with
+  | nil => rfl
+  | cons d rest ih =>
+    have hd : d ∉ rest := (List.nodup_cons.mp h).1
+    have hr : rest.Nodup := (List.nodup_cons.mp h).2
+    have hd' : d ∉ rest.reverse := by simpa using hd
+    simp only [envClose, List.foldl_cons, List.reverse_cons, List.append_assoc, List.singleton_append]
+    rw [List.erase_append_right _ hd', List.erase_cons_head]
+    exact ih hr
+
+theorem open_inv (types0 : List String) (defs : List String) (types rec : List String)
+    (h1 : types = rec.reverse ++ types0) (h2 : rec.Nodup) :
+    ∃ rec', envOpenAux types rec defs = (rec'.reverse ++ types0, rec') ∧ rec'.Nodup := by
+  induction defs generalizing types rec with
+  | nil => exact ⟨rec, by simp [envOpenAux, h1], h2⟩
+  | cons d ds ih =>
+    simp only [envOpenAux]
+    by_cases hc : types.contains d = true
+    · simp only [hc, if_true]; exact ih types rec h1 h2
+    · simp only [hc, Bool.false_eq_true, if_false]
+      apply ih
+      · simp [h1]
+      · have hnot : d ∉ types := by simpa using hc
+        have : d ∉ rec := by
+          intro hm; apply hnot; rw [h1]; simp [hm]
+        exact List.nodup_append.mpr ⟨h2, by simp, by
+          intro a ha b hb
+          simp only [List.mem_singleton] at hb
+          subst hb
+          intro e; subst e; exact this ha⟩
+
 end SciVerif.C05
